@@ -119,7 +119,7 @@ namespace c08
         if (K.has_n)
         {
             sep();
-            s += K.n == (size_t)-1 ? std::string("n=SIZE_MAX") : mc::fmt("n=%zu", K.n);
+            s += K.n == (size_t)-1 ? std::string("n=SIZE_MAX") : K.n > (size_t)-1 / 2 ? mc::fmt("n=0x%zx", K.n) : mc::fmt("n=%zu", K.n);
         }
         s += ")";
         if (K.extra[0])
